@@ -184,6 +184,17 @@ def gen_case(rnd):
         if cat == "" or any(ord(c) < 0x20 or ord(c) > 0x7e for c in cat):
             cat = "app"
         probes.append((cat, rnd.randrange(5)))
+    if rnd.random() < 0.01:
+        # a long-lived filter: hundreds of distinct categories pass through one instance (a category per object, per connection, per
+        # plug-in), and the early ones come back afterwards
+        many = []
+        for j in range(rnd.choice([257, 300, 520, 700])):
+            base = rnd.choice(pats).replace("*", rnd.choice(["", "x", ".sub"]))
+            base = "".join(c for c in base if 0x20 < ord(c) < 0x7f) or "app"
+            if qt_subset:
+                base = "z" + "".join(c for c in base if c.isalnum() or c in "_.-")
+            many.append((rnd.choice([base + ".%d" % j, base + "%d" % j, "%d." % j + base, gen_name(rnd, 0.0) + ".%d" % j]), rnd.randrange(5)))
+        probes = probes + many + [(c, rnd.randrange(5)) for c, _ in many[:40]] + probes
     return text, qt_subset, probes
 
 
